@@ -183,13 +183,18 @@ def dom (b : Book) : Op → Bool
     | _, _ => true
   | .newSheet =>
     -- the generated name is valid and free (always true of `new_sheet`'s search; checked, not proved)
+    -- and no defined name is scoped to the id the new sheet gets (it is larger than every id in use)
     !b.sheets.isEmpty && isValidSheetName (mNewSheet env b).2.1 &&
-      !nameTaken env b (mNewSheet env b).2.1
+      !nameTaken env b (mNewSheet env b).2.1 &&
+      !(b.names.any fun d => d.sheetId == some (newSheetId b))
   | .deleteSheet i =>
     -- the deleted sheet's name is valid and no other sheet has it (true of well-formed books)
+    -- and it has no local defined names: undo re-creates those at the END of the name list
+    -- (`new_defined_name` appends), so the list order is not restored exactly
     match b.sheets[i]? with
     | some sh => isValidSheetName sh.name &&
-        !nameTaken env { b with sheets := b.sheets.eraseIdx i } sh.name
+        !nameTaken env { b with sheets := b.sheets.eraseIdx i } sh.name &&
+        !(b.names.any fun d => d.sheetId == some sh.id)
     | none => true
   | .setColumnsWidth s c1 c2 _ =>
     match b.sheets[s]? with
@@ -832,7 +837,17 @@ theorem op_chain (b : Book) (o : Op) (ds : List Diff) (hd : dom env b o = true)
             exact congrArg _ hfin
   | newSheet =>
     simp only [dom, Bool.and_eq_true, Bool.not_eq_true'] at hd
-    obtain ⟨⟨hne, hvalid⟩, hfree⟩ := hd
+    obtain ⟨⟨⟨hne, hvalid⟩, hfree⟩, hnoloc⟩ := hd
+    have hnames : namesNotOf b.names (some (newSheetId b)) = b.names := by
+      unfold namesNotOf
+      apply List.filter_eq_self.mpr
+      intro d hd
+      cases hq : d.sheetId == some (newSheetId b) with
+      | false => simp [bne, hq]
+      | true =>
+        have : (b.names.any fun d => d.sheetId == some (newSheetId b)) = true :=
+          List.any_eq_true.mpr ⟨d, hd, hq⟩
+        rw [this] at hnoloc; cases hnoloc
     simp only [doOp, newSheet, done, Option.some.injEq] at hp ⊢
     subst hp
     refine Chain.single env ⟨?_, ?_⟩
@@ -842,7 +857,8 @@ theorem op_chain (b : Book) (o : Op) (ds : List Diff) (hd : dom env b o = true)
         List.length_nil]
       have h1 : ¬ (b.sheets.length + (0 + 1) = 1) := by omega
       have h2 : ¬ (b.sheets.length ≥ b.sheets.length + (0 + 1)) := by omega
-      simp only [h1, h2, if_false, eraseIdx_snoc]
+      have hget : ∀ (x : Sheet), (b.sheets ++ [x])[b.sheets.length]? = some x := by intro x; simp
+      simp only [h1, h2, if_false, eraseIdx_snoc, hget, Option.map_some, emptySheet, hnames]
     · simp only [fwd1, mInsertSheet, mNewSheet] at hvalid hfree ⊢
       simp only [hvalid, hfree, Bool.not_true, Bool.false_eq_true, if_false,
         Nat.lt_irrefl, gt_iff_lt, insertIdx_length']
@@ -854,8 +870,28 @@ theorem op_chain (b : Book) (o : Op) (ds : List Diff) (hd : dom env b o = true)
       have hsome := getSheet_ok hs
       have hi : i < b.sheets.length := (List.getElem?_eq_some_iff.mp hsome).1
       simp only [dom, hsome, Bool.and_eq_true, Bool.not_eq_true'] at hd
-      obtain ⟨hvalid, hfree⟩ := hd
-      simp only [hs, mDeleteSheet] at herr hp ⊢
+      obtain ⟨⟨hvalid, hfree⟩, hnoloc⟩ := hd
+      have hno : ∀ d ∈ b.names, (d.sheetId == some sh.id) = false := by
+        intro d hd
+        cases hq : d.sheetId == some sh.id with
+        | false => rfl
+        | true =>
+          have : (b.names.any fun d => d.sheetId == some sh.id) = true :=
+            List.any_eq_true.mpr ⟨d, hd, hq⟩
+          rw [this] at hnoloc; cases hnoloc
+      have hdiffs : localNameDiffs b i sh.id = [] := by
+        unfold localNameDiffs
+        have : (b.names.filter fun d => d.sheetId == some sh.id) = [] := by
+          rw [List.filter_eq_nil_iff]; intro d hd; simp [hno d hd]
+        rw [this]; rfl
+      have hnames : namesNotOf b.names ((b.sheets[i]?).map (·.id)) = b.names := by
+        unfold namesNotOf
+        rw [hsome]
+        apply List.filter_eq_self.mpr
+        intro d hd
+        have := hno d hd
+        simp only [Option.map_some, bne, this, Bool.not_false]
+      simp only [hs, mDeleteSheet, hdiffs, hnames, List.nil_append] at herr hp ⊢
       by_cases h1 : b.sheets.length = 1
       · simp [h1, fail] at herr
       · have h2 : ¬ i ≥ b.sheets.length := by omega
@@ -874,7 +910,7 @@ theorem op_chain (b : Book) (o : Op) (ds : List Diff) (hd : dom env b o = true)
               frozenRows := sh.frozenRows, state := sh.state, color := sh.color } : Sheet) = sh := by
             cases sh; rfl
           rw [hsh, insertIdx_eraseIdx _ _ _ hsome]
-        · simp only [fwd1, mDeleteSheet, h1, h2, if_false]
+        · simp only [fwd1, mDeleteSheet, h1, h2, if_false, hnames]
   | setColumnsWidth s c1 c2 w =>
     simp only [doOp, setColumnsWidth] at herr hp ⊢
     cases hc : checkColsRange b s c1 c2 with
